@@ -242,7 +242,11 @@ func runHistory(r *rng.R, id int, wo, wi *bufio.Writer) {
 		fmt.Fprintln(wo, op)
 		fmt.Fprintf(wi, "%d.%d %s\n", id, idx, res)
 		idx++
-		stats["op/"+strings.SplitN(op, " ", 2)[0]+"/"+strings.SplitN(res, " ", 2)[0]]++
+		rk := strings.SplitN(res, " ", 2)[0]
+		if strings.HasPrefix(rk, "val=") {
+			rk = "value"
+		}
+		stats["op/"+strings.SplitN(op, " ", 2)[0]+"/"+rk]++
 	}
 	var pending []write // writes of the current block
 	apply := func(in *inst, w write) {
@@ -382,6 +386,16 @@ func runHistory(r *rng.R, id int, wo, wi *bufio.Writer) {
 			S, _ := newInst(dbA, names, prune)
 			err := S.ms.LoadVersion(v)
 			if err != nil {
+				// a load that fails must leave a live store as it was: the same call on the running instances (v = 0 is a
+				// legitimate reset of a live store and is not tried)
+				if v != 0 && r.Bool() {
+					eA := A.ms.LoadVersion(v)
+					stats["live-load-of-unavailable-version"]++
+					if eA == nil {
+						emit(fmt.Sprintf("L %d", v), "ok-on-the-live-store-although-a-fresh-instance-fails")
+						break
+					}
+				}
 				emit(fmt.Sprintf("L %d", v), "err")
 			} else {
 				h, ok := own[v]
@@ -403,6 +417,31 @@ func runHistory(r *rng.R, id int, wo, wi *bufio.Writer) {
 				}
 			}
 			hgt := int64(1 + r.Intn(int(cur)+2))
+			if cur >= 1 && r.Chance(1, 5) {
+				hgt = 0 // "the default height"
+			}
+			if r.Chance(1, 4) { // a versioned read through CacheMultiStoreWithVersion, mostly at the latest version (pending writes must not show)
+				ver := cur
+				if r.Chance(1, 3) {
+					ver = int64(1 + r.Intn(int(cur)+2))
+				}
+				res := "noversion"
+				if _, o := try(func() {
+					cms, err := A.ms.CacheMultiStoreWithVersion(ver)
+					if err != nil {
+						return
+					}
+					if v := cms.GetKVStore(A.keys[store]).Get(k); v != nil {
+						res = "val=" + hx(v)
+					} else {
+						res = "none"
+					}
+				}); o != nil {
+					res = "panic " + strings.ReplaceAll(fmt.Sprint(o), " ", "_")
+				}
+				emit(fmt.Sprintf("V %s %s %d", store, hx(k), ver), res)
+				break
+			}
 			prove := r.Bool()
 			var q abci.ResponseQuery
 			if _, o := try(func() {
@@ -443,8 +482,12 @@ func runHistory(r *rng.R, id int, wo, wi *bufio.Writer) {
 					} else {
 						err = prt.VerifyAbsence(q.Proof, own[v], kp.String())
 					}
+					eff := hgt
+					if hgt == 0 {
+						eff = q.Height // the height the store says it answered for
+					}
 					if err == nil {
-						if v == hgt || bytes.Equal(own[v], own[hgt]) {
+						if v == eff || bytes.Equal(own[v], own[eff]) {
 							good++
 						} else {
 							bad++
